@@ -107,7 +107,7 @@ def _raised_in_repo(ex):
     """module:function of the innermost /repo frame if the exception was raised by /repo code, or by a library
     model on behalf of a library call made from /repo code (the replay on the real libraries decides whether
     the real library raises too); None if it comes from the harness itself"""
-    if _signature_mismatch_with_stub(ex):
+    if _signature_mismatch_with_stub(ex) or _attribute_gap_of_stub(ex):
         return None
     tb = ex.__traceback__
     frames = []
@@ -129,6 +129,19 @@ def _raised_in_repo(ex):
 
 
 _SIG = re.compile(r"^(?P<q>[\w.<>]+)\(\) (takes |got an unexpected keyword argument|got multiple values for|missing \d+ required)")
+
+
+def _attribute_gap_of_stub(ex):
+    """AttributeError on an object whose class is defined by a harness (a stand-in for a plate, a posterior sample, a distance
+    matrix ...): the code under test used more of the real interface than the stand-in offers.  A gap of the stand-in -
+    never a finding (the replay uses the same stand-in and would 'confirm' it): harness error, i.e. inconclusive."""
+    if not isinstance(ex, AttributeError):
+        return False
+    obj = getattr(ex, "obj", None)
+    if obj is None:
+        return False
+    cls = obj if isinstance(obj, type) else type(obj)
+    return (getattr(cls, "__module__", "") or "").startswith("bverif.harness")
 
 
 def _signature_mismatch_with_stub(ex):
